@@ -823,6 +823,9 @@ funcexpr(struct func *f, struct expr *e)
 			b[0] = mkblock("logic_right");
 			b[1] = mkblock("logic_join");
 			t = e->u.binary.l->type;
+			/* the phi below names the current block as a source, so it must be able to branch */
+			if (f->end->jump.kind)
+				funclabel(f, mkblock("dead"));
 			if (e->op == TLOR) {
 				funcjnz(f, l, t, b[1], b[0]);
 				b[1]->phi.val[0] = mkintconst(1);
